@@ -648,8 +648,8 @@ _UNROLL_MAX_STMTS = 80
 
 
 def _const_item(e):
-    if is_literal(e):
-        return True
+    if is_literal(e) or isinstance(e, ast.Name) or (isinstance(e, ast.Attribute) and isinstance(e.value, ast.Name)):
+        return True     # (a plain name / attribute read: the loop must not rebind it, see _Unroll.visit_For)
     return isinstance(e, ast.Tuple) and bool(e.elts) and all(is_literal(x) for x in e.elts)
 
 
@@ -806,6 +806,16 @@ class _Unroll(ast.NodeTransformer):
         if not names or _names_in(n.body, ast.Store) & names or _own_level(n.body, (ast.Break, ast.Continue)) \
                 or _captured(n.body, names) or self._read_outside(n, names):
             return n
+        # items that are plain names stand for the objects they name when the loop starts: the body must not rebind them
+        item_names = {x.id for x in n.iter.elts if isinstance(x, ast.Name)}
+        if item_names and (_names_in(n.body, ast.Store) & item_names or len(item_names) != len([x for x in n.iter.elts if isinstance(x, ast.Name)])):
+            return n
+        item_attrs = {ast.unparse(x) for x in n.iter.elts if isinstance(x, ast.Attribute)}
+        if item_attrs:
+            stored = {ast.unparse(x) for s_ in n.body for x in ast.walk(s_) if isinstance(x, ast.Attribute) and isinstance(x.ctx, (ast.Store, ast.Del))}
+            bases = {x.value.id for x in n.iter.elts if isinstance(x, ast.Attribute)}
+            if stored & item_attrs or _names_in(n.body, ast.Store) & bases:
+                return n
         if len(n.iter.elts) * sum(1 for s in n.body for x in ast.walk(s) if isinstance(x, ast.stmt)) > _UNROLL_MAX_STMTS:
             return n
         out = self._unrolled(n.target, n.iter.elts, n.body)
